@@ -1401,11 +1401,17 @@ class SyncedStackedTransforms(StackedTransforms):
         except ImportError:  # pragma: no cover
             pass
 
-        # The new code refers to the function through the token: bind it
-        # before the code is installed (another thread may call fn right now)
-        if token is not None:
-            fn.__globals__[token] = fn
-        fn.__ptera_info__ = info
-        fn.__ptera_token__ = token
+        # Another thread may call fn right now: instrumented code must never
+        # run without the token and the variable table it relies on.
         fn.__ptera_discard__ = False
-        fn.__code__ = code
+        if token is not None:
+            # Installing an instrumented variant: the token and table first
+            fn.__globals__[token] = fn
+            fn.__ptera_info__ = info
+            fn.__ptera_token__ = token
+            fn.__code__ = code
+        else:
+            # Back to the original code: the code first
+            fn.__code__ = code
+            fn.__ptera_info__ = info
+            fn.__ptera_token__ = token
